@@ -448,7 +448,7 @@ func registerFactor() {
 			e.sigAt("recv", recv)
 		} else if tf(e) {
 			recv = orig
-			e.sigs, e.sigName = nil, nil // the receiver is orig: it is updated in place
+			e.sigs, e.sigName, e.sigIn = nil, nil, nil // the receiver is orig: it is updated in place
 		}
 		return func() { recv.RankOne(orig, 0.25, x, y) }
 	})
@@ -531,7 +531,7 @@ func registerFactor() {
 			recv = e.cholOf("recv", w)
 		} else if tf(e) {
 			recv = orig
-			e.sigs, e.sigName = nil, nil
+			e.sigs, e.sigName, e.sigIn = nil, nil, nil
 		}
 		return func() { recv.Scale(f, orig) }
 	})
@@ -547,7 +547,7 @@ func registerFactor() {
 			recv = e.cholOf("recv", w)
 		} else if tf(e) {
 			recv = orig
-			e.sigs, e.sigName = nil, nil
+			e.sigs, e.sigName, e.sigIn = nil, nil, nil
 		}
 		alpha := []float64{0, 0.5, -0.01}[e.rng.Intn(3)]
 		return func() { recv.SymRankOne(orig, alpha, x) }
